@@ -48,6 +48,8 @@ pub struct Expect {
     pub requested: usize,
     pub applied: usize,
     pub stops_on_failure: bool,
+    /// the push meets an I/O error (a target that is a directory): exit 1 and nothing at all is written
+    pub hard_error: bool,
 }
 
 pub fn expectation(ws: &WsCase, opts: &PushOpts, first: usize) -> Expect {
@@ -55,8 +57,11 @@ pub fn expectation(ws: &WsCase, opts: &PushOpts, first: usize) -> Expect {
     let requested = opts.requested(&names, first);
     let last = first + requested;
     match ws.fail_at {
-        Some(j) if j >= first && j < last => Expect { requested, applied: j - first, stops_on_failure: true },
-        _ => Expect { requested, applied: requested, stops_on_failure: false },
+        Some(j) if j >= first && j < last => {
+            let hard = ws.metas[j].ops.iter().any(|o| o.fail_reason.as_deref() == Some("target-is-directory"));
+            Expect { requested, applied: if hard { 0 } else { j - first }, stops_on_failure: true, hard_error: hard }
+        }
+        _ => Expect { requested, applied: requested, stops_on_failure: false, hard_error: false },
     }
 }
 
@@ -135,7 +140,7 @@ pub fn check_c05_like(case: &CliCase, cx: &mut CaseCtx, check_rejects_content: b
     }
     // reject set
     let mut expected_rej: Vec<(String, &FileOp, bool)> = Vec::new();
-    if exp.stops_on_failure {
+    if exp.stops_on_failure && !exp.hard_error {
         let j = ws.fail_at.unwrap();
         let start = &ws.states[first];
         for op in &ws.metas[j].ops {
@@ -204,7 +209,7 @@ pub fn build_cli_case(ch: &mut Chooser, cx: &mut CaseCtx, fail_chance: u32, with
     let thorough = cx.env.tier == Tier::Thorough;
     // names needing C quoting only where rejects are not read back (with_goal = C05)
     let nasty_names = with_goal && ch.chance(1, 4);
-    let o = WsGenOpts { fail_chance, nasty_names, allow_misordered: true, second_failure: true, max_patches: if thorough { 12 } else { 6 }, ..Default::default() };
+    let o = WsGenOpts { fail_chance, nasty_names, allow_misordered: true, second_failure: true, allow_hard_error: true, max_patches: if thorough { 12 } else { 6 }, ..Default::default() };
     let ws = gen_ws(ch, cx, &o);
     let mut opts = gen_opts(ch, true);
     if with_goal {
